@@ -26,6 +26,7 @@ static Value FunctionCallV(const Value& thisArg, const Array::Ptr& args)
 	ScriptFrame *vframe = ScriptFrame::GetCurrentFrame();
 	Function::Ptr self = static_cast<Function::Ptr>(vframe->Self);
 	REQUIRE_NOT_NULL(self);
+	REQUIRE_NOT_NULL(args);
 
 	std::vector<Value> uargs;
 
